@@ -18,7 +18,7 @@ import CpModel.SessionStore
     a<d>   s | s<id>,<id>,… (listing order of the files)   t<id>.<eof|unp|oth>
   Output: one item per op joined by `;`, item = `<out>@<listing>`,
     out     = R:<resp>  |  O:<respA>|<respB>  |  done  |  aborted
-    resp    = <ok|400|500|div>:<cookie id|->:<0|1>:<reads>:L<lens>:C<attrs>:P<presented: n|i<id>|e<id>|->
+    resp    = <ok|400|500|div>:<cookie id|->:<0|1>:<reads>:L<lens>:C<attrs>:P<presented: n|i<id>|e<id>|->[! = Session.missing][r = Session.regenerated]
     reads   = - | dict/dict/…      dict = ~ | k=v,k=v (sorted)
     lens    = - | n,n,…
     attrs   = - | name.path.maxage.expires.domain.secure.httponly   (`-` = absent; times in seconds from tick 0)
@@ -138,7 +138,12 @@ def showCookie : Cookie → String
   | .id c => s!"i{c}"
   | .escaping c => s!"e{c}"
 
-def showResp (cfg : Cfg) (now : Nat) (c : Cookie) (r : Resp) (fin : Option Sess) : String :=
+def showResp (cfg : Cfg) (st : St) (c : Cookie) (r : Resp) (fin : Option Sess) : String :=
+  let now := st.now
+  -- `Session.missing`: an id was presented and the store did not hold it
+  let miss := match c.presented with
+    | none => false
+    | some i => !(has st.store i)
   let ck := match r.cookie with | none => "-" | some i => toString i
   let rd := if r.reads.isEmpty then "-" else "/".intercalate (r.reads.map showDict)
   let ln := match fin with
@@ -148,7 +153,7 @@ def showResp (cfg : Cfg) (now : Nat) (c : Cookie) (r : Resp) (fin : Option Sess)
     | some s => showCookieOut (finalCookie cfg now s)
     | none => "-"
   let pr := match fin with
-    | some _ => showCookie c
+    | some s => showCookie c ++ (if miss then "!" else "") ++ (if s.regenerated then "r" else "")
     | none => "-"
   s!"{showStatus r.status}:{ck}:{if r.expired then 1 else 0}:{rd}:L{ln}:C{attrs}:P{pr}"
 
@@ -182,14 +187,14 @@ def runShow (cfg : Cfg) (mem : Bool) : St → List (DOp × List Nat) → List St
       let st := match o with | .sweep => { st with store := reorder st.store ord } | _ => st
       let r := step cfg st o
       let out := match o, r.2 with
-        | .req c hops, .resp rr => "R:" ++ showResp cfg st.now c rr (requestS cfg st c hops).2.2
+        | .req c hops, .resp rr => "R:" ++ showResp cfg st c rr (requestS cfg st c hops).2.2
         | _, .sweepAborted => "aborted"
         | _, _ => "done"
       (out ++ "@" ++ showListing (view r.1)) :: runShow cfg mem r.1 os
     | .overlap cA preA postA cB hopsB =>
       let r := overlap cfg st cA preA postA cB hopsB
       let fins := overlapS cfg st cA preA postA cB hopsB
-      ("O:" ++ showResp cfg st.now cA r.2.1 fins.1 ++ "|" ++ showResp cfg st.now cB r.2.2 fins.2 ++ "@" ++
+      ("O:" ++ showResp cfg st cA r.2.1 fins.1 ++ "|" ++ showResp cfg st cB r.2.2 fins.2 ++ "@" ++
         showListing (view r.1)) :: runShow cfg mem r.1 os
 
 def parseOptNat (s : String) : Option (Option Nat) :=
